@@ -74,11 +74,9 @@ type jres struct {
 	Ms    []jm   `json:"ms"`
 }
 type jobs struct {
-	Err   int     `json:"err"`
-	Lists []jres  `json:"lists"`
-	ByID  []*jm   `json:"byid"`
-	lists []jres  // structured access (same order)
-	_     struct{}
+	Err   int    `json:"err"`
+	Lists []jres `json:"lists"`
+	ByID  []*jm  `json:"byid"`
 }
 type jcase struct {
 	Buckets []jbucket `json:"buckets"`
@@ -276,52 +274,60 @@ func (s *sys) observe(errc int, bids, ids []uint64) jobs {
 }
 
 // ---- Gallina rendering ----
-func mTerm(m jm) string {
-	return fmt.Sprintf("M %d %d %d %d %d %s %s", m.ID, m.Org, dbCode(m.DB), rpCode(m.RP), m.Bkt, vh.Bool(m.Def), vh.Bool(m.Virt))
-}
-func resTerm(r jres) string {
-	xs := make([]string, len(r.Ms))
-	for i, m := range r.Ms {
-		xs[i] = mTerm(m)
+func dbPack(s string) uint64 {
+	if c := dbCode(s); c != badName {
+		return c
 	}
-	switch r.Class {
-	case 0:
-		return "ROk " + vh.List(xs)
-	case 5:
-		return "RPanic"
-	}
-	return fmt.Sprintf("RErr %d %s", r.Class, vh.List(xs))
+	return 0
 }
-func resTerms(rs []jres) string {
-	xs := make([]string, len(rs))
-	for i, r := range rs {
-		xs[i] = resTerm(r)
+func rpPack(s string) uint64 {
+	if c := rpCode(s); c != badName {
+		return c
 	}
-	return vh.List(xs)
+	return 3
 }
-func obsTerm(ob jobs, nb int) string {
-	k := 0
-	glob := resTerm(ob.Lists[k])
-	k++
-	orgsT := resTerms(ob.Lists[k : k+len(orgs)])
-	k += len(orgs)
-	var dbl []string
-	for range orgs {
-		for range dbs {
-			dbl = append(dbl, fmt.Sprintf("DO (%s) (%s) %s", resTerm(ob.Lists[k]), resTerm(ob.Lists[k+1]), resTerms(ob.Lists[k+2:k+2+len(rps)])))
-			k += 2 + len(rps)
+func b2u(b bool) uint64 {
+	if b {
+		return 1
+	}
+	return 0
+}
+
+// pack: one number per returned mapping (see "wire format" in coq/Model/C43.v)
+func pack(q int, m jm) uint64 {
+	if m.ID == 0 || m.ID > 127 || m.Bkt > 127 || m.Org > 3 {
+		panic(fmt.Sprintf("mapping not representable: %+v", m))
+	}
+	return uint64(q)<<22 | m.ID<<15 | m.Org<<13 | dbPack(m.DB)<<11 | rpPack(m.RP)<<9 | m.Bkt<<2 | b2u(m.Def)<<1 | b2u(m.Virt)
+}
+func marker(q, class int) uint64 { return uint64(q)<<22 | uint64(class)<<2 }
+
+func obsTerm(ob jobs) string {
+	var xs []string
+	add := func(v uint64) { xs = append(xs, fmt.Sprint(v)) }
+	for q, r := range ob.Lists {
+		if r.Class != 0 {
+			add(marker(q, r.Class))
+			if r.Class == 5 {
+				continue
+			}
+		}
+		for _, m := range r.Ms {
+			add(pack(q, m))
 		}
 	}
-	bk := resTerms(ob.Lists[k:])
-	by := make([]string, len(ob.ByID))
-	for i, m := range ob.ByID {
+	for k, m := range ob.ByID {
+		q := len(ob.Lists) + k
 		if m == nil {
-			by[i] = "None"
-		} else {
-			by[i] = "Some (" + mTerm(*m) + ")"
+			continue
 		}
+		if m.ID == 0 {
+			add(marker(q, 6))
+			continue
+		}
+		add(pack(q, *m))
 	}
-	return fmt.Sprintf("OB %d (%s) %s %s %s %s", ob.Err, glob, orgsT, vh.List(dbl), bk, vh.List(by))
+	return fmt.Sprintf("(%d, %s)", ob.Err, vh.List(xs))
 }
 func splitName(name string) (string, string, bool) {
 	if i := strings.Index(name, "/"); i >= 0 {
@@ -353,15 +359,22 @@ func sigOf(c *jcase) string {
 		if !plain {
 			continue
 		}
+		// a plain bucket "d" of org o, and a physical (o, d, autogen) mapping may come to exist ...
 		for _, o := range c.Ops {
-			if (o.Op == "create" && o.DB == d && o.RP == "autogen") || (o.Op == "update" && o.RP == "autogen") {
+			if (o.Op == "create" && o.Org == b.Org && o.DB == d && o.RP == "autogen") || (o.Op == "update" && o.RP == "autogen") {
 				return sigShadow
 			}
 		}
+		// ... or a second virtual (o, d, autogen) from a bucket "d/autogen" next to a physical mapping of (o, d)
 		for _, b2 := range c.Buckets {
 			d2, r2, plain2 := splitName(b2.Name)
-			if !plain2 && d2 == d && r2 == "autogen" {
-				return sigShadow
+			if plain2 || b2.Org != b.Org || d2 != d || r2 != "autogen" {
+				continue
+			}
+			for _, o := range c.Ops {
+				if o.Op == "create" && o.Org == b.Org && o.DB == d {
+					return sigShadow
+				}
 			}
 		}
 	}
@@ -405,7 +418,7 @@ func run(w *vh.W, c *jcase) {
 		ob := s.observe(e, bids, ids)
 		c.Obs = append(c.Obs, ob)
 		ops[i] = opTerm(o)
-		obs[i] = obsTerm(ob, len(bids))
+		obs[i] = obsTerm(ob)
 		w.Count("op", o.Op)
 		w.Count("err", fmt.Sprintf("%s:%d", o.Op, e))
 		if e == 0 {
@@ -477,7 +490,7 @@ func handPicked() []jcase {
 
 func main() {
 	w := vh.New("C43", "From Verif Require Import Base.Prelude Model.C43.\nLocal Open Scope N_scope.", "case", "check")
-	w.Rule = "hand-picked edge histories first, then (n>=30000: all histories of length 4 over a 14-operation alphabet on a fixed 3-bucket table, then) random histories of length 1-8 of create/update/delete/delete-bucket over 2 orgs x 2 databases x 3 retention policies on a random 1-5 bucket table drawn from a 10-entry menu of plain ('db') and 'db/rp' bucket names; ids target existing mappings, bucket ids (virtual mappings) and a few unknown ids; a few invalid names/bucket ids. Non-trivial: at least two successful creates and one other successful operation. Distinct: distinct Gallina terms."
+	w.Rule = "hand-picked edge histories first, then (n>=20000: all 12^4 histories of length 4 over a 12-operation alphabet on a fixed 3-bucket table (org 1: 'db', 'db/r1'; org 2: 'db/r1'), then) random histories of length 1-8 of create/update/delete/delete-bucket over 2 orgs x 2 databases x 3 retention policies on a random 1-5 bucket table drawn from a 10-entry menu of plain ('db') and 'db/rp' bucket names; ids target existing mappings, bucket ids (virtual mappings) and a few unknown ids; a few invalid names/bucket ids. Non-trivial: at least two successful creates and one other successful operation. Distinct: distinct Gallina terms."
 	var rc jcase
 	if w.ReplayCase(&rc) {
 		run(w, &rc)
@@ -489,18 +502,18 @@ func main() {
 		run(w, &c)
 	}
 	w.Extra["hand_picked"] = w.Len()
-	if w.N >= 30000 {
+	if w.N >= 20000 {
 		alpha := []jop{
-			cr(1, "db", "autogen", 16, false), cr(1, "db", "r1", 14, false), cr(1, "db", "r2", 15, true), cr(1, "db2", "r1", 14, false), cr(2, "db", "r1", 16, false),
+			cr(1, "db", "autogen", 16, false), cr(1, "db", "r1", 14, false), cr(1, "db", "r2", 15, true), cr(1, "db2", "r1", 14, false),
 			up(1, 100, "r1", false, false), up(1, 101, "autogen", true, false), up(1, 100, "r2", true, false),
-			del(1, 100), del(1, 101), del(1, 14), delb(14), delb(16), up(1, 15, "r2", true, true),
+			del(1, 100), del(1, 101), del(1, 14), delb(14), up(1, 15, "r2", true, true),
 		}
 		const L = 4
 		idx := make([]int, L)
 		cnt := 0
 		for {
-			c := jcase{Buckets: bk(0, 2, 6)}
-			// bucket 16 belongs to org 2 ("db/r1"), 14 = org 1 "db" (plain), 15 = org 1 "db/autogen"
+			c := jcase{Buckets: bk(0, 1, 6)}
+			// 14 = org 1 "db" (plain), 15 = org 1 "db/r1", 16 = org 2 "db/r1"
 			for _, k := range idx {
 				c.Ops = append(c.Ops, alpha[k])
 			}
